@@ -81,7 +81,9 @@ pub fn run(seed: u64, thorough: bool) {
     }
     for (si, shape) in shapes.iter().enumerate() {
         let n = shape.n();
-        let every = if thorough || si == 0 { 1 } else if shape.heights()[0] > 2 { 4 } else { 2 };
+        // the first shape is re-computed by the model on every case; the others on a sample (an H5
+        // tree costs the model several seconds per case)
+        let every = if si == 0 { 1 } else if shape.heights()[0] > 2 { if thorough { 6 } else { 4 } } else { 2 };
         MODEL_EVERY.with(|m| m.set((every, 0)));
         let mut sd = rng.bytes(n);
         sd.resize(32, 0);
